@@ -1760,8 +1760,8 @@ class BaseSQL(
         else:
             p[0] = p[1]
             if len(p) == 3:
-                if p_list[-1] in ["DESC", "ASC"]:
-                    p[0]["detailed_columns"][0]["order"] = p_list[-1]
+                if p_list[-1].upper() in ["DESC", "ASC"]:
+                    p[0]["detailed_columns"][0]["order"] = p_list[-1].upper()
                 else:
                     p[0]["detailed_columns"][0]["nulls"] = p_list[-1]
 
